@@ -11,6 +11,7 @@ import (
 	"errors"
 	"fmt"
 	"strings"
+	"time"
 
 	"mellium.im/xmpp/mux"
 	"mellium.im/xmpp/receipts"
@@ -527,6 +528,48 @@ func (x *runner) rxWalk(r *hx.Rand, maxSenders, steps int) {
 		}
 	}
 	x.rxFinish(run, acts, "walk")
+}
+
+// rxConcurrentFirstUse: two calls use a fresh Handler at the same time (the
+// documentation promises that SendMessageElement is safe for concurrent use).
+// Free-running; the race detector is the oracle (finding key C06/race/receipts)
+// and both calls must return.
+func (x *runner) rxConcurrentFirstUse() {
+	var b base
+	h := &receipts.Handler{}
+	if err := b.start(nil, rxNote, mux.New(stanza.NSClient, receipts.Handle(h))); err != nil {
+		x.res.Fail("C06/harness/setup", err.Error(), nil)
+		return
+	}
+	defer b.stop()
+	cc := map[string]interface{}{"mode": "receipts-first-use", "scenario": "two SendMessageElement calls on a fresh Handler, started together, contexts cancelled"}
+	x.res.Count("receipts-first-use", true, "receipts/concurrent-first-use")
+	ctx, cancel := context.WithCancel(context.Background())
+	ret := make(chan string, 2)
+	begin := make(chan struct{})
+	for i := 0; i < 2; i++ {
+		id := fmt.Sprintf("f%d", i)
+		go func() {
+			<-begin
+			ret <- hx.Catch(func() {
+				msg := stanza.Message{XMLName: xml.Name{Space: stanza.NSClient, Local: "message"}, ID: id, To: serverJID, Type: stanza.ChatMessage}
+				h.SendMessageElement(ctx, b.s, nil, msg)
+			})
+		}()
+	}
+	close(begin)
+	time.AfterFunc(5*time.Millisecond, cancel)
+	for i := 0; i < 2; i++ {
+		select {
+		case p := <-ret:
+			if p != "" {
+				x.res.Fail("C06/receipts/sender-panic", "concurrent first use of a Handler panicked: "+p, cc)
+			}
+		case <-time.After(watchdog):
+			x.res.Fail("C06/receipts/call-never-returns", "a sender did not return after its context was cancelled (concurrent first use)", cc)
+			return
+		}
+	}
 }
 
 var rxCorpus = [][]rxAction{
